@@ -28,8 +28,13 @@ class LeafMap(dict):
 class FNormalizer(Normalizer):
     """Normalizer whose leaves may also be lookups (`get_x(..)?.field`), named through origin_desc"""
 
+    nodemap = ()      # [(node, symbol)]: sub-expressions another rule has already decided, taken as that symbol
+
     def code(self, n):
         n = strip(n)
+        for (nd, sym) in self.nodemap:
+            if n == nd:
+                return Rat(Poly.atom(sym))
         if n[0] == "agg" and n[1].split("::")[-1] in ("Some", "Ok") and len(n[3]) == 1:
             return self.code(n[3][0])
         arith = n[0] == "call" and (short_callee(n[1]) in self.FUNCS or short_callee(n[1]) in self.REPO_FUNCS or short_callee(n[1]) in self.callmap
@@ -75,10 +80,11 @@ def defs_of(sc, name):
     return out
 
 
-def compare(ctx, rule, key, node, ref_text, leafmap, callmap=None, loc=None, what=""):
+def compare(ctx, rule, key, node, ref_text, leafmap, callmap=None, loc=None, what="", nodemap=()):
     """normalise `node` and the reference; ok / violation.  Unknown leaves or shapes are violations with both forms printed
     when the expression is otherwise well-formed, AnalysisError when it cannot be read at all."""
     nz = FNormalizer(leafmap, callmap or {}, strict=False)
+    nz.nodemap = tuple(nodemap)
     code = nz.code(node)
     ref = nz.ref(ref_text)
     if nz.unknown:
